@@ -20,7 +20,7 @@ RULE = ('lewis-teeth (exhaustive): every teeth number 10..600 (table ends at 500
         'modulus. pairs (Hypothesis): random teeth, helix 0..89 deg, all four worm pressure angles, module / '
         'face width / moduli over three decades in any unit, random subsets, driving != load torque of either '
         'sign set through the public attributes; force, bending and contact stress of BOTH gears vs the oracle '
-        'formulas. Non-trivial = the gear under test has a module, teeth not a table node, driving != load '
+        'formulas; in a third of the cases the gear is then re-mated with a second partner and checked again. Non-trivial = the gear under test has a module, teeth not a table node, driving != load '
         'torque; distinct = canonical JSON.')
 ASSUMPTIONS = [
     'oracle formulas in vp/oracle/gears.py; the base helix angle uses tan(beta) (the docstring\'s cos(beta) is a '
@@ -170,6 +170,23 @@ def check_pair(case) -> Result:
     try:
         check_one(g, gs, hs, case['role'], drive_si, load_si, res, 'g')
         check_one(h, hs, gs, 'slave' if case['role'] == 'master' else 'master', drive_si, load_si, res, 'h')
+        if case.get('h2') and not res.violations:
+            # the same gear re-mated with another partner: everything mate-dependent must follow the new mate
+            h2s = case['h2']
+            h2 = B.make_element(h2s, 'h2')
+            master, slave = (g, h2) if case['role'] == 'master' else (h2, g)
+            if case['pair'] == 'worm':
+                gu.add_worm_gear_mating(master=master, slave=slave, friction_coefficient=case.get('f', 0.05))
+            else:
+                gu.add_gear_mating(master=master, slave=slave, efficiency=0.9)
+            h2.driving_torque = T(*case['drive'])
+            h2.load_torque = T(*case['load'])
+            n0 = len(res.violations)
+            check_one(g, gs, h2s, case['role'], drive_si, load_si, res, 'g re-mated')
+            check_one(h2, h2s, gs, 'slave' if case['role'] == 'master' else 'master', drive_si, load_si, res, 'h2')
+            for v in res.violations[n0:]:
+                v.sig = v.sig + '/after-re-mating'
+            res.classes += ('re-mated',)
     except Exception as e:  # noqa
         res.bad(f'C09/exception/{type(e).__name__}', f'{case}: {type(e).__name__}: {e}')
     z = gs.get('n_teeth', 0)
@@ -285,6 +302,17 @@ def s_pair(draw):
         h = {'type': 'worm', 'n_starts': draw(st.integers(1, 4)), 'helix': hx, 'pressure': [pa, 'deg'],
              'ref_diameter': opt(_qs('Length', -3, -1))}
     case['g'], case['h'] = g, h
+    if draw(st.integers(0, 2)) == 0:
+        # a second partner for g (re-mating): same compatibility data, other teeth / width / modulus / diameter
+        h2 = dict(h)
+        if pair == 'worm':
+            h2['n_starts'] = draw(st.integers(1, 4))
+            h2['ref_diameter'] = opt(_qs('Length', -3, -1), 2)
+        else:
+            h2['n_teeth'] = draw(teeth)
+            h2['face_width'] = opt(_qs('Length', -3, -1))
+            h2['E'] = opt(_qs('Stress', 9, 11), 2)
+        case['h2'] = h2
     return case
 
 
